@@ -18,7 +18,6 @@ import subprocess
 import faulthandler
 import multiprocessing
 from collections import Counter
-from concurrent.futures import ProcessPoolExecutor, wait, FIRST_COMPLETED
 
 from . import env
 from .core import run_seed, jdump, H
@@ -36,8 +35,11 @@ TIERS = {
     "machine_born": {"quick": {"runs": (14000, 0), "wall": 80, "chunk": 100},
                      "thorough": {"runs": (300000, 0), "wall": 800, "chunk": 250}},
 }
-RUN_TIMEOUT_S = 120
+RUN_TIMEOUT_S = int(os.environ.get("SIMTT_RUN_TIMEOUT_S", "120"))
 REEXEC_EVERY = 97   # ~1 % of runs are executed twice in-process and their digests compared
+
+
+_TEST_HOOK = os.environ.get("SIMTT_TEST_HOOK", "")   # "hang:<batch>:<index>" or "die:<batch>:<index>"
 
 
 class RunTimeout(BaseException):
@@ -49,7 +51,6 @@ def _alarm(signum, frame):
 
 
 _QUIET = [False]
-STATUS_DIR = [None]   # per-worker "what am I running" files, so that a dying worker can be attributed to a run
 
 
 def _quiet_worker():
@@ -80,7 +81,7 @@ def batch_seed(verif_seed, prop, batch, index):
     return run_seed(verif_seed, prop + ":" + batch, index)
 
 
-def _chunk(task):
+def _chunk(task, progress=None):
     prop, batch, verif_seed, start, count = task
     m = machine(prop)
     _quiet_worker()
@@ -90,12 +91,14 @@ def _chunk(task):
            "raised_ok": 0, "clock_reads": 0, "sim_clock_s": 0.0, "samples": [], "harness_errors": [],
            "pairs": set(), "digest_acc": hashlib.sha256(), "batch": batch, "extra": Counter()}
     faults = (batch == "fault")
-    status = os.path.join(STATUS_DIR[0], "w%d" % os.getpid()) if STATUS_DIR[0] else None
     for i in range(start, start + count):
         seed = batch_seed(verif_seed, prop, batch, i)
-        if status:
-            with open(status, "w") as f:
-                f.write("%s %d" % (batch, i))
+        if progress is not None:
+            progress(i)
+        if _TEST_HOOK and _TEST_HOOK == "%s:%s:%d" % (_TEST_HOOK.split(":")[0], batch, i):   # self-test of the pool only
+            if _TEST_HOOK.startswith("hang"):
+                time.sleep(3600)
+            os._exit(3)
         signal.setitimer(signal.ITIMER_REAL, RUN_TIMEOUT_S)
         try:
             r = m.run_one(prop, seed, faults)
@@ -137,10 +140,118 @@ def _chunk(task):
         if len(agg["samples"]) < 1 and r["trace_key"] is not None and r["viol"] is None:
             agg["samples"].append({"batch": batch, "index": i, "seed": seed, "records": r["records"]})
     agg["digest_acc"] = agg["digest_acc"].hexdigest()[:16]
-    if status:
-        with open(status, "w") as f:
-            f.write("idle")
     return agg
+
+
+# ---------------------------------------------------------------------------------------------------------------------
+# Own worker pool.  concurrent.futures cannot kill one stuck worker: a run that spins inside LAPACK (C code, no Python
+# bytecode boundary) is immune to SIGALRM and would block the whole check for ever.  Here every worker reports the index
+# of the run it starts; a worker that makes no progress for RUN_HARD_S seconds, or dies, is killed / reaped, the run is
+# recorded as harness trouble (never as a violation, never as success), the rest of its chunk is re-queued and a fresh
+# worker is forked.
+RUN_HARD_S = int(os.environ.get("SIMTT_RUN_HARD_S", "150"))
+
+
+def _worker_main(conn):
+    _quiet_worker()
+    try:
+        while True:
+            task = conn.recv()
+            if task is None:
+                break
+            try:
+                res = _chunk(task, progress=lambda i: conn.send(("run", i)))
+                conn.send(("done", res))
+            except BaseException as e:  # noqa
+                import traceback
+                conn.send(("error", traceback.format_exc()[-1500:]))
+    except (EOFError, KeyboardInterrupt, BrokenPipeError):
+        pass
+    finally:
+        os._exit(0)
+
+
+class _Worker(object):
+    def __init__(self, ctx):
+        self.conn, child = ctx.Pipe()
+        self.proc = ctx.Process(target=_worker_main, args=(child,), daemon=True)
+        self.proc.start()
+        child.close()
+        self.task = None
+        self.index = None
+        self.t_progress = time.time()
+
+
+def run_tasks(tasks, workers, deadline, on_result, on_trouble):
+    """Run _chunk over `tasks` on `workers` forked processes until done or `deadline`; returns #tasks not started."""
+    from multiprocessing.connection import wait as conn_wait
+    ctx = multiprocessing.get_context("fork")
+    queue = list(tasks)
+    pool = [_Worker(ctx) for _ in range(workers)]
+    try:
+        while True:
+            for w in pool:
+                if w.task is None and queue and time.time() <= deadline:
+                    w.task = queue.pop(0)
+                    w.index = w.task[3]
+                    w.t_progress = time.time()
+                    w.conn.send(w.task)
+            busy = [w for w in pool if w.task is not None]
+            if not busy:
+                break
+            ready = conn_wait([w.conn for w in busy], timeout=1.0)
+            now = time.time()
+            for w in busy:
+                dead = False
+                if w.conn in ready:
+                    try:
+                        while w.conn.poll():
+                            kind, val = w.conn.recv()
+                            if kind == "run":
+                                w.index = val
+                                w.t_progress = now
+                            elif kind == "done":
+                                on_result(w.task, val)
+                                w.task = None
+                                break
+                            else:
+                                on_trouble("worker exception in chunk %s: %s" % (w.task[1:], val))
+                                w.task = None
+                                break
+                    except (EOFError, OSError):
+                        dead = True
+                        on_trouble("worker died (exit code %s) in run batch=%s index=%s" % (w.proc.exitcode, w.task[1], w.index))
+                elif now - w.t_progress > RUN_HARD_S:
+                    dead = True
+                    on_trouble("run batch=%s index=%s made no progress for %d s (stuck outside the interpreter); worker killed" % (
+                        w.task[1], w.index, RUN_HARD_S))
+                if dead:
+                    try:
+                        w.proc.kill()
+                    except Exception:
+                        pass
+                    w.proc.join(5)
+                    prop, batch, vs, start, count = w.task
+                    rest = start + count - (w.index + 1)
+                    if rest > 0:
+                        queue.insert(0, (prop, batch, vs, w.index + 1, rest))
+                    i = pool.index(w)
+                    try:
+                        w.conn.close()
+                    except Exception:
+                        pass
+                    pool[i] = _Worker(ctx)
+    finally:
+        for w in pool:
+            try:
+                w.conn.send(None)
+            except Exception:
+                pass
+        for w in pool:
+            w.proc.join(2)
+            if w.proc.is_alive():
+                w.proc.kill()
+    return len(queue)
 
 
 def out_root():
@@ -265,69 +376,26 @@ def run_check(prop, tier, verif_seed, workers=None, runs_override=None, wall_ove
              "trace_keys": set(), "states": set(), "viols": [], "timeouts": 0, "digest_mismatch": 0, "raised_ok": 0,
              "clock_reads": 0, "sim_clock_s": 0.0, "samples": [], "harness_errors": [], "pairs": set(),
              "extra": Counter(), "chunks_skipped_by_wall_cap": 0, "chunk_digests": {}}
-    ctx = multiprocessing.get_context("fork")
-    import tempfile
-    STATUS_DIR[0] = tempfile.mkdtemp(prefix="simtt_status_", dir="/dev/shm" if os.path.isdir("/dev/shm") else None)
     deadline = t0 + tcfg["wall"]
-    pending = set()
-    it = iter(tasks)
     broken = None
-    with ProcessPoolExecutor(max_workers=workers, mp_context=ctx) as ex:
-        def submit_more():
-            while len(pending) < 2 * workers:
-                if time.time() > deadline:
-                    return
-                try:
-                    t = next(it)
-                except StopIteration:
-                    return
-                fut = ex.submit(_chunk, t)
-                fut.task = t
-                pending.add(fut)
-        submit_more()
-        while pending:
-            done, _ = wait(pending, timeout=RUN_TIMEOUT_S * 3, return_when=FIRST_COMPLETED)
-            if not done:
-                broken = "no chunk completed within %d s" % (RUN_TIMEOUT_S * 3)
-                for f in pending:
-                    f.cancel()
-                break
-            for fut in done:
-                pending.discard(fut)
-                try:
-                    a = fut.result()
-                except Exception as e:
-                    busy = []
-                    for fn in sorted(os.listdir(STATUS_DIR[0])):
-                        try:
-                            st = open(os.path.join(STATUS_DIR[0], fn)).read()
-                        except OSError:
-                            continue
-                        if st != "idle":
-                            busy.append(st)
-                    broken = "worker failed: %r; runs in flight: %s" % (e, busy)
-                    continue
-                total["runs"][a["batch"]] += a["runs"]
-                for k in ("ops", "timeouts", "digest_mismatch", "raised_ok", "clock_reads", "sim_clock_s"):
-                    total[k] += a[k]
-                for k in ("fired", "probes", "kernel_calls", "extra"):
-                    total[k].update(a[k])
-                total["trace_keys"] |= a["trace_keys"]
-                total["states"] |= a["states"]
-                total["pairs"] |= a["pairs"]
-                total["viols"].extend(a["viols"])
-                total["harness_errors"].extend(a["harness_errors"])
-                if len(total["samples"]) < 5:
-                    total["samples"].extend(a["samples"])
-                total["chunk_digests"]["%s:%d" % (fut.task[1], fut.task[3])] = a["digest_acc"]
-            if broken:
-                break
-            submit_more()
-        total["chunks_skipped_by_wall_cap"] = sum(1 for _ in it)
+
+    def on_result(task, a):
+        total["runs"][a["batch"]] += a["runs"]
+        for k in ("ops", "timeouts", "digest_mismatch", "raised_ok", "clock_reads", "sim_clock_s"):
+            total[k] += a[k]
+        for k in ("fired", "probes", "kernel_calls", "extra"):
+            total[k].update(a[k])
+        total["trace_keys"] |= a["trace_keys"]
+        total["states"] |= a["states"]
+        total["pairs"] |= a["pairs"]
+        total["viols"].extend(a["viols"])
+        total["harness_errors"].extend(a["harness_errors"])
+        if len(total["samples"]) < 5:
+            total["samples"].extend(a["samples"])
+        total["chunk_digests"]["%s:%d" % (task[1], task[3])] = a["digest_acc"]
+
+    total["chunks_skipped_by_wall_cap"] = run_tasks(tasks, workers, deadline, on_result, total["harness_errors"].append)
     search_wall = time.time() - t0
-    import shutil
-    shutil.rmtree(STATUS_DIR[0], ignore_errors=True)
-    STATUS_DIR[0] = None
 
     # 2. violations: group, minimise, confirm in a fresh interpreter, classify
     own = [v for v in total["viols"] if v["violation"]["property"] == prop]
